@@ -60,6 +60,87 @@ pub trait ParallelIterator: Sized + Send {
         reduce_sum::<Self::Item, S>(items, policy)
     }
 
+    fn filter_map<F, R>(self, filter_op: F) -> FilterMap<Self, F>
+    where
+        F: Fn(Self::Item) -> Option<R> + Sync + Send,
+        R: Send,
+    {
+        FilterMap { base: self, f: filter_op }
+    }
+
+    fn copied<'a, T>(self) -> Map<Self, fn(&'a T) -> T>
+    where
+        T: 'a + Copy + Send + Sync,
+        Self: ParallelIterator<Item = &'a T>,
+    {
+        fn deref<T: Copy>(x: &T) -> T {
+            *x
+        }
+        Map { base: self, f: deref::<T> as fn(&'a T) -> T }
+    }
+
+    fn cloned<'a, T>(self) -> Map<Self, fn(&'a T) -> T>
+    where
+        T: 'a + Clone + Send + Sync,
+        Self: ParallelIterator<Item = &'a T>,
+    {
+        fn cl<T: Clone>(x: &T) -> T {
+            x.clone()
+        }
+        Map { base: self, f: cl::<T> as fn(&'a T) -> T }
+    }
+
+    /// `reduce`: the tasks run in controller-chosen order; the (associative)
+    /// operator is applied left-to-right or as a balanced tree, as the
+    /// controller's reduction shape says.
+    #[track_caller]
+    fn reduce<OP, ID>(self, identity: ID, op: OP) -> Self::Item
+    where
+        OP: Fn(Self::Item, Self::Item) -> Self::Item + Sync + Send,
+        ID: Fn() -> Self::Item + Sync + Send,
+    {
+        let loc = Location::caller();
+        let (bases, f) = self.parts();
+        let (slots, policy) = run_region(Kind::Sum, loc, bases, f);
+        let items: Vec<Self::Item> = slots.into_iter().flatten().collect();
+        fn tree<T>(mut v: Vec<T>, id: &dyn Fn() -> T, op: &dyn Fn(T, T) -> T) -> T {
+            if v.is_empty() {
+                return id();
+            }
+            if v.len() == 1 {
+                return op(id(), v.pop().unwrap());
+            }
+            let r = v.split_off(v.len() / 2);
+            let a = tree(v, id, op);
+            let b = tree(r, id, op);
+            op(a, b)
+        }
+        match policy {
+            Policy::Halves => tree(items, &identity, &op),
+            Policy::ReversedChunks | Policy::PerItemChunks => items.into_iter().map(|x| op(identity(), x)).fold(identity(), &op),
+            _ => items.into_iter().fold(identity(), &op),
+        }
+    }
+
+    #[track_caller]
+    fn count(self) -> usize {
+        let loc = Location::caller();
+        let (bases, f) = self.parts();
+        let (slots, _) = run_region(Kind::All, loc, bases, f);
+        slots.into_iter().flatten().count()
+    }
+
+    #[track_caller]
+    fn any<P>(self, predicate: P) -> bool
+    where
+        P: Fn(Self::Item) -> bool + Sync + Send,
+    {
+        let loc = Location::caller();
+        let (bases, f) = self.parts();
+        let (slots, _) = run_region(Kind::All, loc, bases, |b| f(b).map(&predicate));
+        slots.into_iter().flatten().any(|x| x)
+    }
+
     #[track_caller]
     fn all<P>(self, predicate: P) -> bool
     where
@@ -81,6 +162,29 @@ pub trait IndexedParallelIterator: ParallelIterator {
         Z::Iter: IndexedParallelIterator,
     {
         Zip { a: self, b: zip_op.into_par_iter() }
+    }
+
+    fn enumerate(self) -> Enumerate<Self> {
+        Enumerate { base: self }
+    }
+    fn skip(self, n: usize) -> Window<Self> {
+        Window { base: self, skip: n, take: usize::MAX, step: 1, rev: false }
+    }
+    fn take(self, n: usize) -> Window<Self> {
+        Window { base: self, skip: 0, take: n, step: 1, rev: false }
+    }
+    fn step_by(self, step: usize) -> Window<Self> {
+        assert!(step != 0);
+        Window { base: self, skip: 0, take: usize::MAX, step, rev: false }
+    }
+    fn rev(self) -> Window<Self> {
+        Window { base: self, skip: 0, take: usize::MAX, step: 1, rev: true }
+    }
+    fn with_min_len(self, _min: usize) -> Self {
+        self
+    }
+    fn with_max_len(self, _max: usize) -> Self {
+        self
     }
 }
 
@@ -369,3 +473,61 @@ where
     B: IndexedParallelIterator,
 {
 }
+
+
+#[derive(Clone, Debug)]
+pub struct FilterMap<I, F> {
+    base: I,
+    f: F,
+}
+impl<I, F, R> ParallelIterator for FilterMap<I, F>
+where
+    I: ParallelIterator,
+    F: Fn(I::Item) -> Option<R> + Sync + Send,
+    R: Send,
+{
+    type Item = R;
+    type Base = I::Base;
+    fn parts(self) -> (Vec<I::Base>, impl Fn(I::Base) -> Option<R>) {
+        let (bases, g) = self.base.parts();
+        let f = self.f;
+        (bases, move |b| g(b).and_then(&f))
+    }
+}
+
+#[derive(Clone, Debug)]
+pub struct Enumerate<I> {
+    base: I,
+}
+impl<I: IndexedParallelIterator> ParallelIterator for Enumerate<I> {
+    type Item = (usize, I::Item);
+    type Base = (usize, I::Base);
+    fn parts(self) -> (Vec<(usize, I::Base)>, impl Fn((usize, I::Base)) -> Option<(usize, I::Item)>) {
+        let (bases, g) = self.base.parts();
+        (bases.into_iter().enumerate().collect(), move |(i, b)| g(b).map(|x| (i, x)))
+    }
+}
+impl<I: IndexedParallelIterator> IndexedParallelIterator for Enumerate<I> {}
+
+/// `skip` / `take` / `step_by` / `rev`: a positional selection of the tasks.
+#[derive(Clone, Debug)]
+pub struct Window<I> {
+    base: I,
+    skip: usize,
+    take: usize,
+    step: usize,
+    rev: bool,
+}
+impl<I: IndexedParallelIterator> ParallelIterator for Window<I> {
+    type Item = I::Item;
+    type Base = I::Base;
+    fn parts(self) -> (Vec<I::Base>, impl Fn(I::Base) -> Option<I::Item>) {
+        let (bases, g) = self.base.parts();
+        let mut v: Vec<I::Base> = bases.into_iter().skip(self.skip).take(self.take).step_by(self.step).collect();
+        if self.rev {
+            v.reverse();
+        }
+        (v, g)
+    }
+}
+impl<I: IndexedParallelIterator> IndexedParallelIterator for Window<I> {}
